@@ -86,6 +86,23 @@ def build(ctx, rng, n, with_refund):
                 rs = rbytes(rng, 32)
                 c.refund_seeds[i] = rs
                 c.refund[c.pks[i]] = sigmsg.pubkey(rs)
+    # the same seed may have served another chain earlier in the process
+    # (longer or shorter): nothing of that may reach this setup
+    hist = rng.choice(('none', 'none', 'longer', 'longer', 'shorter',
+                       'samples'))
+    ctx.tab('seed_history', hist)
+    try:
+        if hist == 'longer':
+            extra = [sigmsg.pubkey(rbytes(rng, 32))
+                     for _ in range(rng.randrange(1, 4))]
+            tools.setup_amhl(c.seed, list(c.pks) + extra, '00')
+        elif hist == 'shorter' and n > 2:
+            tools.setup_amhl(c.seed, list(c.pks[:n - 1]), '00')
+        elif hist == 'samples':
+            AMHL.samples(n + 3, c.seed)
+            AMHL.setup(n + 2, c.seed)
+    except BaseException:
+        pass
     c.res = tools.setup_amhl(c.seed, list(c.pks), '00',
                              refund_pubkeys=c.refund or None)
     c.setup = AMHL.setup(n, c.seed)
